@@ -247,6 +247,17 @@ def translate():
             fails.append("worker_of_request_id: no longer the third field from the right of the request id")
             closes = False
     g.append("Definition close_fails_in_flight : bool := %s." % ("true" if closes else "false"))
+    ct = body_after(srv, r"pub fn cancel_task\(&mut self, task_id: TaskId\)\s*\{", "Server::cancel_task", fails)
+    if not re.search(r"self\.queued_tasks\.remove\(&task_id\);", ct):
+        fails.append("Server::cancel_task no longer removes the task")
+    g.append("Definition cancel_purges : bool := %s." % ("true" if re.search(r"self\.in_flight\s*\.retain\(\|_, in_flight_task_id\| \*in_flight_task_id != task_id\);", ct) else "false"))
+    ls = body_after(rq, r"pub fn load_state\(", "load_state", fails)
+    if not re.search(r"Err\(message\) => \{.*?client\.finish_failure\(message\);\s*server\.cancel_task\(task_id\);\s*\}", ls, re.S):
+        fails.append("load_state: the parse-error path is no longer `finish_failure(message); cancel_task(task_id)`")
+    if not re.search(r"Ok\(\(\)\) => \{\s*client\.return_processing\(", ls) or len(re.findall(r"server\.cancel_task\(", ls)) != 1:
+        fails.append("load_state: the success path / the single cancel_task are no longer recognised")
+    if len(re.findall(r"client\.finish_(?:ok|failure)\(", ls)) != 3:
+        fails.append("load_state: expected three early finish_failure (missing file, unreadable file, parse error) and nothing else")
     cw = body_after(srv, r"pub fn close_worker\(", "Server::close_worker", fails)
     if not re.search(r"worker\.run_state = RunState::Stopped;", cw):
         fails.append("Server::close_worker: no longer marks the worker Stopped")
@@ -372,8 +383,19 @@ class Sim:
         return [c for c in range(self.nc) if c not in self.busy and c not in self.cgone]
 
     def req(self, c, verb, n=0):
-        self.ops.append(["req", c, verb] + ([n] if verb == "load" else []))
+        self.ops.append(["req", c, verb] + ([n] if verb in ("load", "loadbad") else []))
         if verb in ("local", "wfail", "loadmissing", "none", "launch", "retsock", "reloadbad"):
+            return None
+        if verb == "loadbad":
+            # answered at once (failure), but its n requests were scattered: the workers may
+            # still acknowledge them — nothing may come of it
+            t = dict(client=None, verb=verb, timed=False, at=self.logical,
+                     slots={w: list(range(self.recv[w], self.recv[w] + n)) for w in self.alive()},
+                     answered=set(), done=False, ghost=True)
+            for w in self.alive():
+                self.recv[w] += n
+            if n and t["slots"]:
+                self.tasks.append(t)
             return None
         per = n if verb == "load" else 1
         t = dict(client=c, verb=verb, timed=verb not in ("load", "softstop"), at=self.logical,
@@ -389,7 +411,8 @@ class Sim:
 
     def finish(self, t):
         t["done"] = True
-        self.busy.pop(t["client"], None)
+        if self.busy.get(t["client"]) is t:
+            self.busy.pop(t["client"], None)
         if t["verb"] in ("hardstop", "softstop"):
             self.stopped = True
 
@@ -429,8 +452,10 @@ def gen_case(rng, cid, allow_sleep, allow_stop):
             x = rng.random()
             if x < 0.55:
                 s.req(c, rng.choice(SCATTER))
-            elif x < 0.70:
+            elif x < 0.66:
                 s.req(c, "load", rng.choice([0, 1, 2, 3]))
+            elif x < 0.72:
+                s.req(c, "loadbad", rng.choice([0, 1, 1, 2, 3]))
             elif x < 0.93 or not allow_stop:
                 s.req(c, rng.choice(LOCALS))
             else:
@@ -495,7 +520,7 @@ def corpus_cases():
 
 
 def nontrivial(case, o):
-    scattered = sum(1 for op in case.ops if op[0] == "req" and op[2] in ("wok", "query", "status", "metrics", "load", "hardstop", "softstop"))
+    scattered = sum(1 for op in case.ops if op[0] == "req" and op[2] in ("wok", "query", "status", "metrics", "load", "loadbad", "hardstop", "softstop"))
     wev = [op for op in case.ops if op[0] in ("resp", "respu", "close", "sleep")]
     fault = [op for op in wev if op[0] in ("respu", "close", "sleep") or (op[0] == "resp" and (op[1] != op[2] or op[4] != 0))]
     seen = {}
